@@ -17,7 +17,7 @@ CLAIMED = {
          "Trusted: PushState's Eq (all stacks, inputs, output cursor, limits) plus bitwise float comparison.",
          "DESIGN.md §2 C02"),
  "C03": (PBT + ": growth/looping/nesting/blow-up program templates under tiny stack limits and large step limits, differential reference model plus invariants (no panic, sizes <= maxima, only overflow aborts, exactly min(limit, steps-to-halt) steps), watchdog for hangs",
-         "Exploration: thousands (quick) to hundreds of thousands (thorough) of adversarial programs, up to 20000 steps each, nests up to depth 200/3000. A hang is reported as inconclusive (exit 2), never as a violation.",
+         "Exploration: thousands (quick) to hundreds of thousands (thorough) of adversarial programs, up to 20000 steps each, nests up to depth 200/2000. A hang is reported as inconclusive (exit 2), never as a violation.",
          "Trusted: reference model; nests deeper than the stated bound are out of scope.",
          "DESIGN.md §2 C03"),
  "C04": (PBT + ": generated operation histories in lock-step against a Vec+capacity reference model (bulk insertion from exact-size iterators, iterators without a size hint and iterators with valid but imprecise hints)",
